@@ -135,6 +135,7 @@ class FakeSelect(object):
 
     def select(self, rlist, wlist, xlist, timeout=None):
         self.sim.tick('select')
+        self.sim.on_select()
         ready = []
         for s in rlist:
             if isinstance(s, FakeSocket):
@@ -348,6 +349,7 @@ class Sim(object):
         self.current_stimulus = None
         self.quiescent_points = 0
         self.skipped = []          # script positions of peer stimuli that could not be delivered
+        self.mid_delivered = 0     # stimuli delivered between two fragments of an outgoing message
         with patched(self):
             sock = None
             if role == 'acceptor':
@@ -481,6 +483,10 @@ class Sim(object):
             stim = self.next_stimulus()
             if stim is None:
                 raise EndOfScript()
+            if stim[0] == 'mid':
+                # the message it was meant to interleave with is already out: ordinary delivery
+                stim = stim[1]
+                self.current_stimulus = stim
             kind = stim[0]
             if kind == 'user':
                 return stim[1]
@@ -521,6 +527,17 @@ class Sim(object):
         elif stim[0].endswith('reset'):
             s.reset = True
         return True
+
+    def on_select(self):
+        """Second injection point: a peer stimulus marked ('mid', stim) arrives while the
+        provider is in the middle of sending a fragmented message (its fragment generator is
+        active), i.e. between two of its own P-DATA-TF PDUs."""
+        nxt = self.peek_stimulus()
+        if nxt is not None and nxt[0] == 'mid' and getattr(self.provider, 'dimse_gen', None) is not None:
+            self.next_stimulus()
+            self.current_stimulus = nxt[1]
+            self.mid_delivered += 1
+            self.deliver_to_socket(nxt[1])
 
     def on_blocking_recv(self, sock):
         """recv() with nothing to read: a real blocking socket would wait."""
